@@ -188,7 +188,8 @@ let fval_of s : nat -> nat =
 let keys_of (progs : call list list) =
   List.sort_uniq compare (List.concat_map (List.map (function CDo k | CGet k -> int_of_nat k)) progs)
 
-let show_val = function None -> "nil" | Some v -> string_of_int (int_of_nat v)
+(* the value 0 stands for an f that returns nil *)
+let show_val = function None -> "nil" | Some v -> if int_of_nat v = 0 then "nil" else string_of_int (int_of_nat v)
 let cmask fv nthr (s : cstate) =
   let m = ref 0 in
   for t = 0 to nthr - 1 do if cenabled fv s (nat_of_int t) then m := !m lor (1 lsl t) done; !m
